@@ -14,14 +14,15 @@
 (* length 0 or 1).  Events are plain records; the same records are emitted *)
 (* by TLC for replay on the code and logged by the code for validation.    *)
 (***************************************************************************)
-EXTENDS Entry
+EXTENDS Entry, Views
 
 B2S(b) == IF b THEN <<1>> ELSE <<0>>
 Res(m, ret) == [m |-> m, ret |-> ret, pan |-> FALSE]
 ARes(E, ret) == [E |-> E, ret |-> ret, pan |-> FALSE]
 
 Mutators  == {"Insert", "Remove", "RemoveKeepTree", "RemoveChildren", "Retain", "Clear", "Entry",
-              "GetMut", "LpmMut", "IterMut", "ValuesMut", "ChildrenMut"}
+              "GetMut", "LpmMut", "IterMut", "ValuesMut", "ChildrenMut",
+              "ViewSet", "ViewRemove", "ViewValueMut", "ViewIterMut"}
 \* value written through a mutable reference in the bounded model: 1 <-> 2
 Flip(v) == IF v = 1 THEN 2 ELSE 1
 \* write through the k-th yielded reference only (k > 0) or through all of them (k = 0),
@@ -32,7 +33,20 @@ WriteThrough(m, slots, k) ==
         THEN [m.a[i] EXCEPT !.v = Flip(@)] ELSE m.a[i]]]
 AWriteThrough(E, pvs, k) ==
     {IF \E j \in 1..Len(pvs) : pvs[j].p.n = e.n /\ (k = 0 \/ k = j) THEN [e EXCEPT !.v = Flip(@)] ELSE e : e \in E}
-Observers == {"Get", "GetKV", "Contains", "Lpm", "Spm", "Cover", "Children", "Iter", "Len"}
+Observers == {"Get", "GetKV", "Contains", "Lpm", "Spm", "Cover", "Children", "Iter", "Len",
+              "ViewDesc", "Find"}
+
+\* view_at(q) / view_mut_at(q) on the whole map
+ViewAt(m, q) == Find(m, RootLoc, q)
+\* find / find_exact / find_lpm from the view at q0
+FindFrom(m, q0, q, kind) ==
+    LET at == ViewAt(m, q0) IN
+    IF at = <<>> THEN <<>>
+    ELSE LET res == CASE kind = "find"       -> Find(m, at[1], q)
+                      [] kind = "find_exact" -> FindExact(m, at[1], q)
+                      [] kind = "find_lpm"   -> FindLpm(m, at[1], q)
+         IN IF res = <<>> THEN <<[ok |-> 0, d |-> Short(m, at[1])]>>
+            ELSE <<[ok |-> 1, d |-> Short(m, res[1])]>>
 
 Apply(m, e) ==
     CASE e.a = "Insert"         -> LET r == MapInsert(m, e.p, e.v) IN Res(r.m, r.ret)
@@ -53,6 +67,28 @@ Apply(m, e) ==
                                    Res(WriteThrough(m, IterSlots(m, <<1>>), e.k), IterAll(m))
       [] e.a = "ChildrenMut"    -> LET st == ChildrenStart(m, e.p) IN
                                    Res(WriteThrough(m, IterSlots(m, st), e.k), IterFrom(m, st))
+      [] e.a = "ViewDesc"       -> LET at == ViewAt(m, e.p) IN
+                                   Res(m, IF at = <<>> THEN <<>> ELSE <<Desc(m, at[1])>>)
+      [] e.a = "Find"           -> Res(m, FindFrom(m, e.p, e.q, e.kind))
+      [] e.a = "ViewSet"        ->                  \* TrieViewMut::set -- the counter is NOT updated (finding F4)
+            LET at == ViewAt(m, e.p) IN
+            IF at = <<>> THEN Res(m, <<>>)
+            ELSE IF at[1].k = "Virt" THEN Res(m, <<[ok |-> 0, old |-> <<e.v>>]>>)
+            ELSE Res([m EXCEPT !.a[at[1].i].v = e.v], <<[ok |-> 1, old |-> Opt(m.a[at[1].i].v)]>>)
+      [] e.a = "ViewRemove"     ->                  \* TrieViewMut::remove -- the counter is NOT updated (F4)
+            LET at == ViewAt(m, e.p) IN
+            IF at = <<>> THEN Res(m, <<>>)
+            ELSE IF at[1].k = "Virt" THEN Res(m, <<[old |-> <<>>]>>)
+            ELSE Res([m EXCEPT !.a[at[1].i].v = NoVal], <<[old |-> Opt(m.a[at[1].i].v)]>>)
+      [] e.a = "ViewValueMut"   ->                  \* value_mut / prefix_value_mut + write
+            LET at == ViewAt(m, e.p) IN
+            IF at = <<>> THEN Res(m, <<>>)
+            ELSE IF at[1].k = "Virt" \/ m.a[at[1].i].v = NoVal THEN Res(m, <<[old |-> <<>>]>>)
+            ELSE Res([m EXCEPT !.a[at[1].i].v = Flip(@)], <<[old |-> PV(m.a[at[1].i])]>>)
+      [] e.a = "ViewIterMut"    ->                  \* iter_mut / values_mut / into_iter of a mutable view
+            LET at == ViewAt(m, e.p) IN
+            IF at = <<>> THEN Res(m, <<>>)
+            ELSE Res(WriteThrough(m, IterSlots(m, <<at[1].i>>), e.k), <<LocIter(m, at[1])>>)
       [] e.a = "Get"            -> Res(m, GetAlg(m, e.p))
       [] e.a = "GetKV"          -> Res(m, GetKVAlg(m, e.p))
       [] e.a = "Contains"       -> Res(m, B2S(ContainsAlg(m, e.p)))
@@ -83,6 +119,25 @@ AbsApply(E, e, r) ==
                                    ARes(IF l = <<>> THEN E ELSE ASetVal(E, l[1].p.n, e.v), l)
       [] e.a \in {"IterMut", "ValuesMut"} -> ARes(AWriteThrough(E, SortedPV(E), e.k), SortedPV(E))
       [] e.a = "ChildrenMut"    -> ARes(AWriteThrough(E, AChildren(E, e.p), e.k), AChildren(E, e.p))
+      \* views: the abstract map cannot know shapes or the prefixes of value-less nodes; the
+      \* machine's answer is judged by the predicates in RetAgrees instead of by equality
+      [] e.a \in {"ViewDesc", "Find"} -> ARes(E, r.ret)
+      [] e.a = "ViewSet"        ->
+            IF r.ret = <<>> \/ r.ret[1].ok = 0 THEN ARes(E, r.ret)
+            ELSE \* the value is stored under the node's existing prefix (documented)
+                 LET h == (CHOOSE x \in Entries(r.m) : x.n = e.p.n).h IN
+                 ARes({x \in E : x.n # e.p.n} \cup {[n |-> e.p.n, h |-> h, v |-> e.v]},
+                      <<[ok |-> 1, old |-> AVal(E, e.p.n)]>>)
+      [] e.a = "ViewRemove"     ->
+            IF r.ret = <<>> THEN ARes(E, r.ret)
+            ELSE ARes({x \in E : x.n # e.p.n}, <<[old |-> AVal(E, e.p.n)]>>)
+      [] e.a = "ViewValueMut"   ->
+            IF r.ret = <<>> THEN ARes(E, r.ret)
+            ELSE ARes(IF AHas(E, e.p.n) THEN ASetVal(E, e.p.n, Flip(AGet(E, e.p.n).v)) ELSE E,
+                      <<[old |-> AOptPV(E, e.p.n)]>>)
+      [] e.a = "ViewIterMut"    ->
+            IF r.ret = <<>> THEN ARes(E, r.ret)
+            ELSE ARes(AWriteThrough(E, AChildren(E, e.p), e.k), <<AChildren(E, e.p)>>)
       [] e.a = "Get"            -> ARes(E, AVal(E, e.p.n))
       [] e.a = "GetKV"          -> ARes(E, AOptPV(E, e.p.n))
       [] e.a = "Contains"       -> ARes(E, B2S(AHas(E, e.p.n)))
@@ -93,24 +148,51 @@ AbsApply(E, e, r) ==
       [] e.a = "Iter"           -> ARes(E, SortedPV(E))
       [] e.a = "Len"            -> ARes(E, <<Cardinality(E)>>)
 
-\* does the machine's result agree with the abstract one?
-RetAgrees(e, r, ar) ==
-    IF e.a = "Retain"
+\* does the machine's result agree with the abstract one?  (E = contents before the event)
+RetAgrees(e, r, ar, E, canon, drift) ==
+    \* len(): exact, except for the drift the listed finding F4 explains
+    IF e.a = "Len" THEN r.ret = <<ar.ret[1] + drift>> /\ ~r.pan ELSE
+    IF e.a = "ViewDesc" THEN ViewAtOK(E, e.p, r.ret, canon) /\ ~r.pan
+    ELSE IF e.a = "Find" THEN
+         /\ ~r.pan
+         /\ r.ret = <<>> => AUnder(E, e.p) = {}
+         /\ r.ret # <<>> =>
+              LET EV  == AUnder(E, e.p)                    \* the entries of the view searched from
+                  res == IF r.ret[1].ok = 1 THEN <<r.ret[1].d>> ELSE <<>>
+              IN /\ CASE e.kind = "find"       -> FindOK(EV, e.q, res)
+                      [] e.kind = "find_exact" -> FindExactOK(EV, e.q, res)
+                      [] e.kind = "find_lpm"   -> FindLpmOK(EV, e.q, res)
+                 \* on failure the original view is handed back
+                 /\ r.ret[1].ok = 0 => r.ret[1].d.it = SortedPV(EV)
+    ELSE IF e.a \in {"ViewSet", "ViewRemove", "ViewValueMut", "ViewIterMut"} THEN
+         /\ ~r.pan /\ r.ret = ar.ret
+         /\ r.ret = <<>> => AUnder(E, e.p) = {}
+    ELSE IF e.a = "Retain"
     THEN \* every stored entry is asked exactly once (any order), unless the predicate panicked
          /\ ~r.pan => /\ Len(r.ret) = Len(ar.ret)
                       /\ {r.ret[i] : i \in 1..Len(r.ret)} = {ar.ret[i].p : i \in 1..Len(ar.ret)}
          /\ r.pan => Len(r.ret) = e.panicAt
     ELSE r.ret = ar.ret /\ r.pan = ar.pan
 
+\* Known finding F4: TrieViewMut::set / remove change the number of entries without
+\* updating the cached counter.  DriftDelta is the amount by which len() runs ahead of the
+\* true number of entries after the event; only these two call sites may change it.
+DriftDelta(m, e) ==
+    IF e.a \in {"ViewSet", "ViewRemove"} /\ ViewAt(m, e.p) # <<>> /\ ViewAt(m, e.p)[1].k = "Node"
+    THEN LET valued == m.a[ViewAt(m, e.p)[1].i].v # NoVal IN
+         IF e.a = "ViewRemove" /\ valued THEN 1
+         ELSE IF e.a = "ViewSet" /\ ~valued THEN -1 ELSE 0
+    ELSE 0
+
 \* events that reset the map to a new one (clear keeps no node but the root)
 IsClear(e) == e.a = "Clear" \/ (e.a = "RemoveChildren" /\ PLen(e.p) = 0)
 
 \* operations after which the shape must still be the canonical one (C15)
 \* (an Entry session keeps it unless it used o_remove, which is remove_keep_tree)
-ValueOnly == {"GetMut", "LpmMut", "IterMut", "ValuesMut", "ChildrenMut"}
+ValueOnly == {"GetMut", "LpmMut", "IterMut", "ValuesMut", "ChildrenMut", "ViewValueMut", "ViewIterMut"}
 CanonKeeps(e) == \/ e.a \in {"Insert", "Remove", "Retain", "Clear"} \cup Observers \cup ValueOnly
                  \/ e.a = "Entry" /\ \A i \in 1..Len(e.ops) : e.ops[i].o # "o_remove"
 \* events that must leave the shape untouched (C15): value-only operations
-ShapeKeeps(e) == \/ e.a \in {"RemoveKeepTree"} \cup Observers \cup ValueOnly
+ShapeKeeps(e) == \/ e.a \in {"RemoveKeepTree", "ViewSet", "ViewRemove"} \cup Observers \cup ValueOnly
                  \/ e.a = "Entry" /\ \A i \in 1..Len(e.ops) : e.ops[i].o \notin Consuming
 =============================================================================
